@@ -136,6 +136,15 @@ impl TableBuilder for PostgresQueryBuilder {
                         column_def.name.prepare(sql.as_writer(), self.quote());
                         write!(sql, " TYPE ").unwrap();
                         self.prepare_column_type(column_type, sql);
+                        // USING belongs to the TYPE clause, wherever it stands in the specification list
+                        if let Some(ColumnSpec::Using(expr)) = column_def
+                            .spec
+                            .iter()
+                            .find(|s| matches!(s, ColumnSpec::Using(_)))
+                        {
+                            write!(sql, " USING ").unwrap();
+                            QueryBuilder::prepare_simple_expr(self, expr, sql);
+                        }
                     }
                     let first = column_def.types.is_none();
 
@@ -149,10 +158,6 @@ impl TableBuilder for PostgresQueryBuilder {
                                 | ColumnSpec::Comment(_)
                                 | ColumnSpec::Using(_)
                         ) {
-                            if let ColumnSpec::Using(expr) = column_spec {
-                                write!(sql, " USING ").unwrap();
-                                QueryBuilder::prepare_simple_expr(self, expr, sql);
-                            }
                             return first;
                         }
                         if !first {
